@@ -696,8 +696,147 @@ def p_rebuild_same(sc, raw):
     return None
 
 
+# ---- ONE PSBT object described repeatedly, tampered with in place between the calls
+# The declared (constructor) fields of every class of the object graph; the in-place editor writes these and
+# nothing else, so anything an object has memoised (a description, a quorum, a script hash, an address, a
+# derived key …) stays where it is and must not influence the next verdict.
+_FIELDS = {
+    "PSBT": ("tx_obj", "psbt_ins", "psbt_outs", "hd_pubs", "extra_map", "network"),
+    "PSBTIn": ("tx_in", "prev_tx", "prev_out", "sigs", "hash_type", "redeem_script", "witness_script", "named_pubs",
+               "script_sig", "witness", "extra_map"),
+    "PSBTOut": ("tx_out", "redeem_script", "witness_script", "named_pubs", "extra_map"),
+    "Tx": ("version", "tx_ins", "tx_outs", "locktime", "network", "segwit"),
+    "StubTx": ("_h", "tx_outs"),
+    "TxIn": ("prev_tx", "prev_index", "script_sig", "sequence", "witness", "_value", "_script_pubkey"),
+    "TxOut": ("amount", "script_pubkey"),
+    "Script": ("commands", "raw"),
+    "Witness": ("items",),
+}
+
+
+def _fields(o):
+    for cls in type(o).__mro__:
+        if cls.__name__ in _FIELDS:
+            return _FIELDS[cls.__name__]
+    return None
+
+
+def graft(dst, src, depth):
+    """Give every declared field of dst the value it has in src, editing dst IN PLACE down to `depth` levels of
+    objects (below that src's sub-objects are assigned); lists and dicts are always edited in place."""
+    if isinstance(dst, list) and isinstance(src, list):
+        dst[:] = [graft(dst[i], y, depth) if i < len(dst) else y for i, y in enumerate(src)]
+        return dst
+    if isinstance(dst, dict) and isinstance(src, dict):
+        new = dict(src)
+        dst.clear()
+        dst.update(new)
+        return dst
+    f = _fields(dst)
+    if f is None or type(dst) is not type(src) or depth <= 0:
+        return src
+    for name in f:
+        setattr(dst, name, graft(getattr(dst, name, None), getattr(src, name, None), depth - 1))
+    return dst
+
+
+def _dump(o):
+    """declared fields of an object graph as a plain value (to compare the edited object with a fresh one)"""
+    if isinstance(o, (list, tuple)):
+        return [_dump(x) for x in o]
+    if isinstance(o, dict):
+        return [[k, _dump(o[k])] for k in sorted(o)]
+    if isinstance(o, NamedHDPublicKey):
+        return ["hd", HDPublicKey.raw_serialize(o), o.raw_path]
+    if isinstance(o, NamedPublicKey):
+        return ["pub", o.sec(), o.raw_path]
+    f = _fields(o)
+    if f is not None:
+        return [type(o).__name__] + [_dump(getattr(o, name, None)) for name in f]
+    return o
+
+
+_MUL = {}
+
+
+class _memo_mul:
+    """while a reuse sequence runs, k * P (pure-Python secp256k1, the cost of every BIP32 step) is memoised on
+    (P, k mod N): the eight descriptions of one sequence repeat the same derivations.  Pure function, same
+    results; nothing above the scalar multiplication is memoised."""
+
+    def __enter__(self):
+        from buidl.ecc import N, S256Point
+        self.cls, self.orig = S256Point, S256Point.__rmul__
+        orig = self.orig
+
+        def rmul(pt, k):
+            if pt.x is None or not isinstance(k, int):
+                return orig(pt, k)
+            key = (pt.x.num, pt.y.num, k % N)
+            if key not in _MUL:
+                if len(_MUL) > 4096:
+                    _MUL.clear()
+                res = orig(pt, k)
+                _MUL[key] = None if res.x is None else (res.x.num, res.y.num)
+                return res
+            v = _MUL[key]
+            return S256Point(None, None) if v is None else S256Point(v[0], v[1])
+
+        S256Point.__rmul__ = rmul
+        return self
+
+    def __exit__(self, *a):
+        self.cls.__rmul__ = self.orig
+        return False
+
+
+def _describe_obj(p, hmap):
+    try:
+        return summary(p.describe_basic_multisig(hdpubkey_map=hmap))
+    except AssertionError:
+        raise
+    except Exception:  # noqa
+        return None
+
+
+def p_describe_reuse(scs, mode):
+    """ONE PSBT object is taken through the scenarios scs[0], scs[1], … by in-place edits (mode 0: the fields of
+    the PSBT / PSBTIn / PSBTOut objects are assigned; mode 1: the existing TxIn / TxOut / Script objects and the
+    dictionaries inside them are rewritten) and described after every step (twice at the first and the last):
+    every verdict — the summary or the refusal — must be the verdict on freshly built objects in that state.
+    The hdpubkey_map objects are kept as long as the scenario's map does not change."""
+    depth = 9 if mode else 2
+    P, hmap = build(scs[0])
+    cur_map = scs[0][3]
+    for step, sc in enumerate(scs):
+        Q, hq = build(sc)
+        if step:
+            graft(P, Q, depth)
+        if sc[3] != cur_map:
+            hmap, cur_map = hq, sc[3]
+        if _dump(P) != _dump(build(sc)[0]):
+            return f"step {step}: harness: the object edited in place is not in the state of the scenario"
+        try:
+            want = i_describe(sc)
+        except AssertionError:
+            raise
+        except Exception:  # noqa
+            want = None
+        for rep in range(2 if step in (0, len(scs) - 1) else 1):
+            got = _describe_obj(P, hmap)
+            if got != want:
+                def show(v):
+                    return "refused" if v is None else "fee=%d in=%d spend=%d change=%d flags=%s" % (
+                        v[0], v[1], v[3], v[4], [o[1] for o in v[9]])
+                return (f"step {step} call {rep}: the reused object is {show(got)}, a fresh object in the same "
+                        f"state is {show(want)}")
+            if _dump(P) != _dump(build(sc)[0]):
+                return f"step {step}: describe_basic_multisig changed the PSBT it describes"
+    return None
+
+
 PROPS = {"tamper_rejected": p_tamper_rejected, "honest_summary": p_honest_summary,
-         "rebuild_same": p_rebuild_same}
+         "rebuild_same": p_rebuild_same, "describe_reuse": p_describe_reuse}
 
 # tamperings that the implementation is KNOWN to summarise (findings/C11.json); everything else that is
 # accepted is a violation.  The structural test ties the key to the shape of the PSBT, not only to the label.
@@ -820,6 +959,7 @@ def generate(ctx):
     combos = [(m, n) for n in range(1, nmax + 1) for m in range(1, n + 1)]
     variants = ["helper", "p2sh", "p2wsh/wit", "p2wsh/nonwit", "p2wsh/both", "p2wsh/p2sh-p2wsh-change"]
     rounds = ctx.n(1, 1)
+    n_seq = 0
     for rnd in range(rounds):
         for ci, (m, n) in enumerate(combos):
             # quick tier: three of the six variants per wallet, rotating so that every variant meets
@@ -856,11 +996,28 @@ def generate(ctx):
                     yield ("corr", "validate_in", [sc, k])
                 for k in range(len(sc[2])):
                     yield ("corr", "validate_out", [sc, k])
+                tlist = []
                 for kind, t in tampers(ctx, sc):
                     t = with_table(t)
                     ctx.label("tamper " + kind)
                     yield ("prop", "tamper_rejected", [kind.encode(), t])
                     yield ("corr", "describe", [t])
+                    tlist.append((kind, t))
+                # ---- the same states on ONE object: tampered -> honest -> tampered -> honest (described twice),
+                # edited in place; then another honest state (an output pays less, the fee grows)
+                pref = [x for x in tlist if x[0] in ("amount-wit", "amount-nonwit", "both-utxo-amount", "swap-output-spk",
+                                                     "foreign-out-script-spk", "quorum-out", "one-cosigner-change",
+                                                     "second-change", "foreign-xpub", "foreign-in-script")]
+                ta = r.choice(tlist)
+                tb = r.choice(pref or tlist)
+                sc2 = _copy.deepcopy(sc)
+                sc2[2][r.randrange(len(sc2[2]))][0] -= 100
+                n_seq += 1
+                for mode in ((n_seq % 2,) if ctx.tier == "quick" else (0, 1)):
+                    ctx.label("reuse/" + ("objects-edited-in-place" if mode else "fields-assigned"))
+                    ctx.label("reuse tamper " + ta[0])
+                    ctx.label("reuse tamper " + tb[0])
+                    yield ("prop", "describe_reuse", [[ta[1], sc, tb[1], sc, sc2, sc], mode])
                 for t in mutations(ctx, sc, ctx.n(4, 20)):
                     yield ("corr", "describe", [t])
                     yield ("corr", "validate_in", [t, 0])
